@@ -11,7 +11,8 @@
    digested, certificate file, hash) seen by the dynamic updater with what the simulated
    HAProxy received: whether a reload was asked for and the files of `set ssl cert`. *)
 From Coq Require Export List String ZArith NArith Bool.
-From HI Require Export Model.Tracker Model.Conv Model.CrtList.
+From HI Require Export Model.Tracker Model.Conv Model.CrtList Model.CrtList_xns.
+From HI Require Model.XNs.
 Export ListNotations.
 Open Scope string_scope.
 
@@ -42,7 +43,12 @@ Record kinst := {
   ki_lines : list (string * string * string)
 }.
 
-Record kcase := { kid : N; ksteps : list (kstep * kobs); kdyns : list kdyn; kinsts : list kinst }.
+(* kx: the cross-namespace bits of the run: (crt, ca) = --allow-cross-namespace or the
+   global keys cross-namespace-secrets-crt / -ca at allow *)
+Record kcase := { kid : N; kx : bool * bool; ksteps : list (kstep * kobs); kdyns : list kdyn; kinsts : list kinst }.
+
+Definition dyn_of (x : bool * bool) : XNs.dyn :=
+  {| XNs.d_crt := fst x; XNs.d_ca := snd x; XNs.d_passwd := false; XNs.d_svc := false |}.
 
 Definition pair_eqb (a b : string * string) : bool :=
   String.eqb (fst a) (fst b) && String.eqb (snd a) (snd b).
@@ -86,16 +92,16 @@ Qed.
 
 Definition world_of (s : kstep) : world := match s with KFull w => w | KPartial w _ => w end.
 
-Fixpoint run_ksteps (x : st) (l : list (kstep * kobs)) : bool :=
+Fixpoint run_ksteps (d : XNs.dyn) (x : st) (l : list (kstep * kobs)) : bool :=
   match l with
   | [] => true
   | (s, o) :: r =>
       match (match s with
-             | KFull w => Some (sync_full w)
-             | KPartial w b => sync_partial w x b
+             | KFull w => Some (sync_full (xworld d w))
+             | KPartial w b => sync_partial (xworld d w) x (xbatch d w b)
              end) with
       | None => false
-      | Some x' => obs_ok (world_of s) x' o && run_ksteps x' r
+      | Some x' => obs_ok (world_of s) x' o && run_ksteps d x' r
       end
   end.
 
@@ -127,25 +133,25 @@ Definition kinst_ok (i : kinst) : bool :=
     (ki_lines i).
 
 Definition kcase_ok (c : kcase) : bool :=
-  run_ksteps (empty_state, []) (ksteps c) && forallb kdyn_ok (kdyns c) && forallb kinst_ok (kinsts c).
+  run_ksteps (dyn_of (kx c)) (empty_state, []) (ksteps c) && forallb kdyn_ok (kdyns c) && forallb kinst_ok (kinsts c).
 
 Definition mismatches (cs : list kcase) : list N :=
   map kid (filter (fun c => negb (kcase_ok c)) cs).
 
 (* diagnostics: index of the first failing step, the lines of the model and the names
    whose certificate differs *)
-Fixpoint first_bad (n : nat) (x : st) (l : list (kstep * kobs))
+Fixpoint first_bad (d : XNs.dyn) (n : nat) (x : st) (l : list (kstep * kobs))
   : option (nat * list (string * string) * list (string * string)) :=
   match l with
   | [] => None
   | (s, o) :: r =>
       match (match s with
-             | KFull w => Some (sync_full w)
-             | KPartial w b => sync_partial w x b
+             | KFull w => Some (sync_full (xworld d w))
+             | KPartial w b => sync_partial (xworld d w) x (xbatch d w b)
              end) with
       | None => Some (n, [], [])
       | Some x' =>
-          if obs_ok (world_of s) x' o then first_bad (S n) x' r
+          if obs_ok (world_of s) x' o then first_bad d (S n) x' r
           else Some (n, model_lines (host_names (world_of s)) (fst x'),
                      map (fun e => (fst e, served_in (host_names (world_of s)) (fst x') (fst e)))
                          (filter (fun e => negb (String.eqb (served_in (host_names (world_of s)) (fst x') (fst e)) (snd e)))
